@@ -151,4 +151,22 @@ def geomLength (rs : List GeomRec) : Nat := (rs.map varLength).sum
 def valuePos (rs : List GeomRec) (i k : Nat) : Nat :=
   geomLength (rs.take i) + (match rs[i]? with | some r => dataOffset r | none => 0) + k
 
+/-! ### hypotheses of the injectivity theorem -/
+
+/-- Same number of variables, pairwise the same rank. -/
+def SameRanks (rs rs' : List GeomRec) : Prop :=
+  rs.map (·.shape.length) = rs'.map (·.shape.length)
+
+/-- The data of a variable has `size · itemsize(dtype name)` bytes. -/
+def WellFormed (itemsize : String → Nat) (r : GeomRec) : Prop :=
+  r.data.length = Ems.size r.shape * itemsize r.dtype
+
+/-- Two variables that differ in rank and contribute the same bytes (the witness of
+`stream_not_injective`): int32 `[1, 4]` of shape `(2,)` with four attributes whose blob is
+`00 00 00 00`, and int32 `[4, 4]` of shape `(2, 1)` with four attributes and an empty blob. -/
+def witnessA : GeomRec :=
+  { name := "a", dtype := "i", shape := [2], data := le32 1 ++ le32 4, attrCount := 4, attrBlob := [0, 0, 0, 0] }
+def witnessB : GeomRec :=
+  { name := "a", dtype := "i", shape := [2, 1], data := le32 4 ++ le32 4, attrCount := 4, attrBlob := [] }
+
 end Ems.CacheKey
